@@ -948,3 +948,85 @@ func (m *Model) RunFreshNodes(s *Sink, rule string) {
 		s.Undecided(rule, "parser|parse functions", "-", "only %d parse functions with an AST result found", n)
 	}
 }
+
+// RunTokenWriters — R-ERRLINE (who writes tokens): a token is what the lexer made it. Outside the lexer no field of a
+// token.Token or token.Position that belongs to an existing token is stored to — an AST node's token widened in place
+// (through the pointer Tok() hands out, to record a span) moves the line every error about that node reports.
+// R-LAYOUT (who writes the tables): the Reserves and Inserts tables of a parsed program are written by the parser
+// only; a file "is a layout" because its table of reserves is not empty, also after it was linked.
+func (m *Model) RunTokenWriters(s *Sink, rule string) {
+	n, bad := 0, 0
+	for _, fn := range m.ModFns {
+		if fn.Blocks == nil || isUserPkg(fnPkgPath(fn)) || shortPkg(fnPkgPath(fn)) == "lexer" || shortPkg(fnPkgPath(fn)) == "token" {
+			continue
+		}
+		for _, b := range fn.Blocks {
+			for _, in := range b.Instrs {
+				st, ok := in.(*ssa.Store)
+				if !ok {
+					continue
+				}
+				fa, ok := st.Addr.(*ssa.FieldAddr)
+				if !ok {
+					continue
+				}
+				tn := derefTypeString(fa.X.Type())
+				if !strings.HasSuffix(tn, "token.Token") && !strings.HasSuffix(tn, "token.Position") {
+					continue
+				}
+				// a token value under construction in a local, or a field of a node being built, is not an existing token
+				root := fa.X
+				for d := 0; d < 4; d++ {
+					if f2, isF := root.(*ssa.FieldAddr); isF {
+						root = f2.X
+						continue
+					}
+					break
+				}
+				if _, fresh := root.(*ssa.Alloc); fresh {
+					continue
+				}
+				n++
+				bad++
+				s.Violation(rule, fmt.Sprintf("%s|writes a field of an existing token", fnKey(fn)), m.InstrPos(st), "%s stores into %s of a token it did not build: the token of an AST node is what every error about that node reports its line from, and it is shared with whoever holds the node", fnKey(fn), fieldName(fa.X.Type(), fa.Field))
+			}
+		}
+	}
+	if bad == 0 {
+		s.OK(rule, "tokens|written by the lexer only", "-", "no store into a field of an existing token.Token / token.Position outside the lexer")
+	}
+	_ = n
+}
+
+func (m *Model) RunProgramTables(s *Sink, rule string) {
+	bad := 0
+	for _, fn := range m.ModFns {
+		if fn.Blocks == nil || isUserPkg(fnPkgPath(fn)) || shortPkg(fnPkgPath(fn)) == "parser" {
+			continue
+		}
+		for _, b := range fn.Blocks {
+			for _, in := range b.Instrs {
+				st, ok := in.(*ssa.Store)
+				if !ok {
+					continue
+				}
+				fa, ok := st.Addr.(*ssa.FieldAddr)
+				if !ok || !strings.HasSuffix(derefTypeString(fa.X.Type()), "ast.Program") {
+					continue
+				}
+				f := fieldName(fa.X.Type(), fa.Field)
+				if f != "Reserves" && f != "Inserts" && f != "Components" {
+					continue
+				}
+				if _, fresh := fa.X.(*ssa.Alloc); fresh {
+					continue
+				}
+				bad++
+				s.Violation(rule, fmt.Sprintf("%s|replaces the %s table of a parsed program", fnKey(fn), f), m.InstrPos(st), "%s replaces the %s table of a program the parser built: whether a file is a layout (it declares reserves) and which inserts / components it has is read from these tables after linking too", fnKey(fn), f)
+			}
+		}
+	}
+	if bad == 0 {
+		s.OK(rule, "ast.Program|tables written by the parser only", "-", "no store into Reserves / Inserts / Components of an existing program outside the parser")
+	}
+}
